@@ -64,7 +64,13 @@ class as_preconditioner {
                 )
             : prm(prm)
         {
-            init(std::make_shared<build_matrix>(M), bprm);
+            // The input matrix is copied here; sort the rows of the copy
+            // (as amg does) so that order-sensitive smoothers (ILU-type)
+            // do not depend on the order of entries in the user's rows.
+            auto A = std::make_shared<build_matrix>(M);
+            sort_rows(*A);
+
+            init(A, bprm);
         }
 
         as_preconditioner(
